@@ -73,7 +73,7 @@ SITES = [
     dict(id='schedule-b-interest-threshold', kind='const', line='1040.2b', mentions=['1099-int:{n}.box_1'], official='SCHED_B_THRESHOLD', selectors=[]),
     dict(id='schedule-b-dividend-threshold', kind='const', line='1040.3b', mentions=['1099-div:{n}.box_1a'], official='SCHED_B_THRESHOLD', selectors=[]),
     # --- Additional Medicare Tax: employer withholding trigger and threshold on total Medicare wages (Form 1040 line 25c -> Form 8959)
-    dict(id='addl-medicare-form-required', kind='const', line={2021: '1040.25c', 2022: '1040.25c', 2023: '1040.25c'}, mentions=['w-2:{n}.box_5'], official='ADDL_MEDICARE_SET', selectors=[S]),
+    dict(id='addl-medicare-form-required', kind='const', line={2021: '1040.25c', 2022: '1040.25c', 2023: '1040.25c'}, mentions=['w-2:{n}.box_5'], official='ADDL_MEDICARE_SET', selectors=[S], each_decides=True),   # Form 8959 is required over $200,000 from one employer AND over the status threshold in total
     # --- NC
     dict(id='nc-standard-deduction', kind='echo', line='nc_d-400_sa.nc_standard_deduction', official='NC_STD', selectors=[S],
          assume=[('i|1040.standard_deduction_exceptions', False)]),
